@@ -1,5 +1,81 @@
 package main
 
-func writeManifest() {}
+import (
+	"bufio"
+	"encoding/json"
+	"fmt"
+	"os"
+	"path/filepath"
+	"sort"
+)
 
 func selftestExtra() int { return 0 }
+
+// writeManifest regenerates /verif/MANIFEST.json from the property registry.
+func writeManifest() {
+	root := verifRoot()
+	var allIDs []string
+	if f, err := os.Open(filepath.Join(root, "properties.jsonl")); err == nil {
+		sc := bufio.NewScanner(f)
+		sc.Buffer(make([]byte, 1<<20), 1<<22)
+		for sc.Scan() {
+			var p struct {
+				ID string `json:"id"`
+			}
+			if json.Unmarshal(sc.Bytes(), &p) == nil && p.ID != "" {
+				allIDs = append(allIDs, p.ID)
+			}
+		}
+		f.Close()
+	}
+	sort.Strings(allIDs)
+	var checks []map[string]interface{}
+	var na []map[string]string
+	var served []string
+	for _, id := range allIDs {
+		p := registry[id]
+		if p == nil {
+			na = append(na, map[string]string{"property_id": id, "reason": "check not built yet (runtime monitoring applies; see DESIGN.md §4)"})
+			continue
+		}
+		served = append(served, id)
+		checks = append(checks, map[string]interface{}{
+			"property_id":         id,
+			"quick_cmd":           "./check " + id + " quick",
+			"thorough_cmd":        "./check " + id + " thorough",
+			"evidence_file":       "/verif/evidence/" + id + ".json",
+			"replay_cmd_template": "./check " + id + " --replay {path}",
+			"engine":              "vh",
+			"level_claimed":       map[string]string{"category": "exploration", "text": p.LevelText, "design_ref": "DESIGN.md " + p.DesignRef},
+			"level_note":          p.LevelNote,
+			"technique":           p.Technique,
+		})
+	}
+	m := map[string]interface{}{
+		"version":   1,
+		"setup_cmd": "./setup.sh",
+		"hooks": map[string]interface{}{
+			"guard":            "verif",
+			"enable":           "go build -tags verif (no hook commits exist: every observation point is reachable from the public API; the harness is built with the tag for uniformity)",
+			"baseline_off_cmd": "cd /repo && GOFLAGS=-mod=mod GOPROXY=off GOSUMDB=off go test -vet=off -count=1 ./...",
+			"source_commits":   []string{},
+			"add_only":         true,
+		},
+		"engines": []map[string]interface{}{{
+			"name": "vh", "path": "/verif/harness", "serves_properties": served,
+			"kind_free_text": "single Go harness binary built against /repo's working tree (replace directive): seeded workload generators (reflect.StructOf declarations, intent-rendered and hostile argument vectors, INI texts), child process per batch with journal/watchdog, observers (value snapshots, call logs, fd-level stdout/stderr capture, pty-controlled terminal width, panic recovery), independent reference functions and per-property oracles; Go race detector for the concurrent re-runs of the thorough tier",
+		}},
+		"checks":         checks,
+		"notes":          "Exit codes of every check: 0 = held on everything explored (KNOWN-FINDING lines possible), 1 = VIOLATION line(s) printed, 2 = the check itself is broken/inconclusive (never a property verdict). VERIF_SEED selects the seed (default 1). Fixed case counts per tier; no oracle reads a clock.",
+		"not_applicable": na,
+	}
+	if na == nil {
+		m["not_applicable"] = []map[string]string{}
+	}
+	b, _ := json.MarshalIndent(m, "", " ")
+	if err := os.WriteFile(filepath.Join(root, "MANIFEST.json"), append(b, '\n'), 0o644); err != nil {
+		fmt.Fprintln(os.Stderr, err)
+		os.Exit(2)
+	}
+	fmt.Printf("MANIFEST.json: %d checks, %d not yet claimed\n", len(checks), len(na))
+}
